@@ -1,5 +1,6 @@
 """C03 - exit status and threshold filtering tell CI the truth."""
 import glob
+import json
 import itertools
 import os
 import random
@@ -224,6 +225,49 @@ def system_cases(R, rng, tier):
                                  "observed": "", "signature": None})
 
 
+def baseline_cases(R, rng, tier):
+    """With -b the report lists the findings the baseline does not account for; the exit status is decided on that same
+    list: 1 exactly when the report lists a finding (at the thresholds in force), for the formats that support a baseline."""
+    d = os.path.join(impl.scratch(), "c03b")
+    os.makedirs(d, exist_ok=True)
+    old = "import pickle\nassert zz_a\nzz_q = eval(zz_b)\n"
+    variants = [("unchanged", old), ("one more", old + "exec(zz_c)\n"), ("one more of a baselined kind", old + "assert zz_d\n"),
+                ("one fewer", "import pickle\nassert zz_a\n"), ("moved", "\n\n" + old), ("all new", "import subprocess\nsubprocess.call(zz_c, shell=True)\n")]
+    tgt = os.path.join(d, "prog.py")
+    bl = os.path.join(d, "base.json")
+    open(tgt, "w").write(old)
+    r0 = climain.run_main(["-q", "-f", "json", "-o", bl, "--exit-zero", tgt])
+    if r0["exception"] or not os.path.exists(bl):
+        R.violations.append({"what": "could not write a baseline report", "input": old, "observed": r0["exception"], "signature": None})
+        return
+    for name, src in variants:
+        open(tgt, "w").write(src)
+        for fmt in ("json", "txt", "html"):
+            for thr in ([], ["-ll"], ["-ii"], ["-lll", "-iii"]) if tier != "quick" or fmt == "json" else ([], ["-ll"]):
+                out = os.path.join(d, "rep.out")
+                if os.path.exists(out):
+                    os.remove(out)
+                argv = ["-q", "-b", bl, "-f", fmt] + thr
+                r = climain.run_main(argv + ["-o", out, tgt])
+                text = open(out, encoding="utf-8").read() if os.path.exists(out) else ""
+                R.case(("baseline", name, fmt, tuple(thr)), nontrivial=True, sample={"variant": name, "argv": argv, "exit": r["exit"]})
+                R.count("system:baseline")
+                inp = {"baseline_of": old, "scanned": src, "argv": argv + ["-o", "<out>", "prog.py"]}
+                if r["exception"] or r["exit"] not in (0, 1):
+                    R.violations.append({"what": "baseline run (%s) ends with %s" % (name, r["exception"] or "exit %s" % r["exit"]), "input": inp,
+                                         "observed": (r["traceback"] or r["stderr"] or "")[-400:], "signature": None})
+                    continue
+                if fmt == "json":
+                    n = len(json.loads(text)["results"]) if text else 0
+                elif fmt == "html":
+                    n = text.count('<div id="issue-')
+                else:
+                    n = text.count(">> Issue: ")
+                if (r["exit"] == 1) != (n > 0):
+                    R.violations.append({"what": "with a baseline (%s) the %s report lists %d findings but the exit status is %s" % (name, fmt, n, r["exit"]),
+                                         "input": inp, "observed": {"exit": r["exit"], "listed": n}, "signature": None})
+
+
 def run(R, replay=None):
     rng = random.Random(R.seed)
     for f in core.gen():
@@ -238,4 +282,5 @@ def run(R, replay=None):
               "non-trivial = the finding list is non-empty")
     unit_cases(R, rng, R.tier)
     system_cases(R, rng, R.tier)
+    baseline_cases(R, rng, R.tier)
     R.disagreements_checked = R.evaluations
